@@ -59,25 +59,20 @@ theorem obuLoop_inv (c : EncCfg) (hc : ValidCfg c) (s0 : UInt16) (last : Bool) (
     have hcur := h.cur_le
     rw [obuLoop]
     simp only
-    split
-    · -- fits
-      rename_i hfit
+    by_cases hom : (last && decide (st.cur.n < 3)) = true
+    · simp only [hom, if_true]
       split
-      · rename_i hom
-        simp only [hom, if_true] at hfit
-        exact setCur_inv c s0 st _ _ _ h (by simp only [List.length_append]; omega)
-      · rename_i hom
-        simp only [hom, Bool.false_eq_true, if_false] at hfit
-        exact setCur_inv c s0 st _ _ _ h (by simp only [List.length_append, lebEnc_length]; omega)
-    · split
+      · exact setCur_inv c s0 st _ _ _ h (by simp only [List.length_append]; omega)
       · split
         · apply ih
           apply closeOpen_inv c hc
           exact setCur_inv c s0 st _ _ _ h (by simp only [List.length_append, List.length_take]; omega)
         · exact ih _ _ (closeOpen_inv c hc s0 st false h)
+    · simp only [hom, Bool.false_eq_true, if_false]
+      split
+      · exact setCur_inv c s0 st _ _ _ h (by simp only [List.length_append, lebEnc_length]; omega)
       · split
-        · rename_i hav
-          apply ih
+        · apply ih
           apply closeOpen_inv c hc
           apply setCur_inv c s0 st _ _ _ h
           have hm := lebSize_mono (c.max - (1 + st.cur.body.length) - lebSize c.max) c.max (by omega) hc.2
